@@ -176,3 +176,101 @@ pub fn damaged_merge() {
     }
     sym::reach(1);
 }
+
+// ---- damage under a live replica (incremental refresh path)
+use anyhow::{anyhow, Result};
+use melda::adapter::Adapter;
+use std::any::Any;
+use std::collections::BTreeMap;
+use std::sync::{Arc, Mutex, RwLock};
+
+/// write-once backend like MemoryAdapter whose map the harness can reach to damage an item in place
+pub struct SharedStore {
+    map: Arc<Mutex<BTreeMap<String, Vec<u8>>>>,
+}
+
+impl Adapter for SharedStore {
+    fn as_any(&self) -> &dyn Any {
+        self
+    }
+    fn as_any_mut(&mut self) -> &mut dyn Any {
+        self
+    }
+    fn read_object(&self, key: &str, offset: usize, length: usize) -> Result<Vec<u8>> {
+        let m = self.map.lock().unwrap();
+        let d = m.get(key).ok_or_else(|| anyhow!("object not found"))?;
+        if offset == 0 && length == 0 {
+            Ok(d.clone())
+        } else if offset + length > d.len() {
+            Err(anyhow!("invalid slice range"))
+        } else {
+            Ok(d[offset..offset + length].to_vec())
+        }
+    }
+    fn write_object(&self, key: &str, data: &[u8]) -> Result<()> {
+        let mut m = self.map.lock().unwrap();
+        if !m.contains_key(key) {
+            m.insert(key.to_string(), data.to_vec());
+        }
+        Ok(())
+    }
+    fn list_objects(&self, ext: &str) -> Result<Vec<String>> {
+        Ok(self.map.lock().unwrap().keys().filter(|k| k.ends_with(ext)).map(|k| k[..k.len() - ext.len()].to_string()).collect())
+    }
+}
+
+/// A live replica refreshes while files arrive; an item that was already seen by an earlier refresh is damaged in
+/// place before the block depending on it becomes applicable. The damaged item must not be trusted.
+pub fn live_damage() {
+    let (src, s1, s2, items1, items2) = two_commits();
+    let map = Arc::new(Mutex::new(BTreeMap::new()));
+    let ad: Ad = Arc::new(RwLock::new(Box::new(SharedStore { map: map.clone() })));
+    let mut t = Melda::new(ad.clone()).expect("Melda::new");
+    let get = |k: &str| src.read().unwrap().read_object(k, 0, 0).unwrap();
+    // first commit arrives completely
+    for k in &items1 {
+        ad.write().unwrap().write_object(k, &get(k)).unwrap();
+    }
+    t.refresh().expect("refresh");
+    assert!(state(&t) == s1, "first commit not applied");
+    // of the second commit the pack arrives first and is indexed by a refresh (a block that was read and verified
+    // earlier is legitimately kept in memory; packs are re-read from storage when they are used)
+    let first = items2.iter().position(|k| k.ends_with(".pack")).expect("second commit wrote a pack");
+    let k1 = items2[first].clone();
+    ad.write().unwrap().write_object(&k1, &get(&k1)).unwrap();
+    t.refresh().expect("refresh");
+    assert!(state(&t) == s1, "an incomplete commit took effect");
+    // it is then damaged in place (one byte replaced, truncated, or removed)
+    {
+        let mut m = map.lock().unwrap();
+        let orig = m.get(&k1).unwrap().clone();
+        match sym::choose(3) {
+            0 => {
+                m.remove(&k1);
+            }
+            1 => {
+                m.insert(k1.clone(), orig[..orig.len() / 2].to_vec());
+            }
+            _ => {
+                let pos = orig.len() / 2;
+                let nb = sym::any_u8();
+                sym::assume(nb != orig[pos]);
+                let mut c = orig.clone();
+                c[pos] = nb;
+                m.insert(k1.clone(), c);
+            }
+        }
+    }
+    // the rest of the second commit arrives
+    for (i, k) in items2.iter().enumerate() {
+        if i != first {
+            ad.write().unwrap().write_object(k, &get(k)).unwrap();
+        }
+    }
+    match t.refresh() {
+        Ok(()) => assert!(state(&t) == s1, "a block was applied although an item it depends on is damaged"),
+        Err(_) => {}
+    }
+    let _ = s2;
+    sym::reach(1);
+}
